@@ -683,3 +683,25 @@ func E1SharedArgs(c *core.Ctx, r *core.Report) {
 		r.Assumed[k] = true
 	}
 }
+
+// E1VectorRenderPath: the vector writers do not modify the path and style they are given (C12).
+func E1VectorRenderPath(c *core.Ctx, r *core.Report) {
+	r.Rule("E1.render-path-pure", "RenderPath of the SVG, PDF and PostScript writers writes no memory reachable from its path or style argument (interprocedural effect analysis, the same summaries as E1.render-pure). A writer uses the path twice — once for the native operators under the view, once for the explicit outline of a stroke it cannot express — and the canvas replays the same path object to every renderer: a view applied in place (`path.Transform(m)` without the copy) makes the fall-back outline m(stroke(m(path))) and leaves every later rendering of the canvas displaced")
+	a := newEffects(c, r)
+	var fs []*ssa.Function
+	for _, b := range backends {
+		if b.rel == "renderers/rasterizer" {
+			continue
+		}
+		fs = append(fs, c.SSAFunc(b.rel, b.recv+".RenderPath"))
+	}
+	a.solve(fs)
+	for _, f := range fs {
+		a.reportEffects(r, "E1.render-path-pure", f, nil, "argument", "path", "style")
+	}
+	r.Count("E1.vector-render-roots", len(fs))
+	r.Floor("E1.vector-render-roots", 3)
+	for k := range a.extPure {
+		r.Assumed[k] = true
+	}
+}
